@@ -66,6 +66,19 @@ func clipWord(s string) string {
 	return s[:j]
 }
 
+// foldIdent folds an unquoted identifier the way PostgreSQL does in a UTF-8
+// database (scansup.c, downcase_identifier): ASCII letters only; non-ASCII
+// letters keep their case, so that Élan and élan are two different names.
+func foldIdent(s string) string {
+	b := []byte(s)
+	for i, c := range b {
+		if c >= 'A' && c <= 'Z' {
+			b[i] = c + 'a' - 'A'
+		}
+	}
+	return string(b)
+}
+
 func isIdentStart(c byte) bool {
 	return c == '_' || (c >= 'a' && c <= 'z') || (c >= 'A' && c <= 'Z') || c >= 0x80
 }
@@ -98,7 +111,7 @@ func lex(src string) ([]token, *Error) {
 			for j < n && isIdentPart(src[j]) {
 				j++
 			}
-			toks = append(toks, token{kind: tIdent, text: src[i:j], lower: strings.ToLower(src[i:j]), pos: i})
+			toks = append(toks, token{kind: tIdent, text: src[i:j], lower: foldIdent(src[i:j]), pos: i})
 			i = j
 		case c >= '0' && c <= '9':
 			j := i
